@@ -30,7 +30,7 @@ ASSUMPTIONS = [
     "retention model B2 (DESIGN.md Appendix B2): prune from the oldest while id < min(pinned or newest) and policy(len, id) says so",
     "pruning policies used are pure functions of (number of retained versions, version id)",
 ]
-REQUIRED = ["mon.reader_snapshot_stable", "mon.retained_set", "mon.version_ids", "mon.mutator_attack", "mon.serial_lookup"]
+REQUIRED = ["mon.source_object_mutated_after_commit", "mon.reader_snapshot_stable", "mon.retained_set", "mon.version_ids", "mon.mutator_attack", "mon.serial_lookup"]
 BUDGET = {"quick": 40.0, "thorough": 420.0}
 
 MUTATOR_NAMES = ["add", "update", "clear", "pop", "popitem", "remove", "discard", "append", "extend", "insert", "setdefault", "__setitem__", "__delitem__",
@@ -240,12 +240,19 @@ def run_history(ctx, rng, zname, factory, steps):
             elif kind in ("commit", "rollback", "noop_commit"):
                 w = z.writer()
                 changed = False
+                sources = []
                 if kind != "noop_commit":
                     for _ in range(rng.randint(1, 3)):
                         o = lname(rng.choice(owners))
                         rd = rng.choice(pool)
-                        if rng.random() < 0.7:
+                        r2 = rng.random()
+                        if r2 < 0.5:
                             w.add(o, rng.choice((60, 300)), rd)
+                        elif r2 < 0.75:
+                            # the Rdataset-object spelling: the caller keeps its object and may go on using it
+                            src = dns.rdataset.from_rdata(rng.choice((60, 300)), rd)
+                            (w.replace if rng.random() < 0.6 else w.add)(o, src)
+                            sources.append(src)
                         else:
                             w.delete(o)
                     r_ = rng.random()
@@ -274,6 +281,19 @@ def run_history(ctx, rng, zname, factory, steps):
                             if inside is not None and contents[nid][0] != inside[0]:
                                 ctx.violation(f"committed-version-differs-from-writer-view:{tag}", "", case)
                                 return
+                        # a committed version is detached from what the caller handed in: mutate those objects now
+                        for src in sources:
+                            ctx.count("mon.source_object_mutated_after_commit")
+                            same = [x for x in pool if (x.rdclass, x.rdtype) == (src.rdclass, src.rdtype) and x not in src]
+                            if same:
+                                src.add(same[0], 1)
+                            else:
+                                src.update_ttl(1)
+                        if sources:
+                            with z.reader() as t:
+                                if readout(t, origin, btree) != contents[nid]:
+                                    ctx.violation(f"committed-version-changed-when-caller-mutated-its-own-rdataset:{tag}", f"version {nid}", case)
+                                    return
                         V.append(nid)
                         issued.add(nid)
                         serials[nid] = serial_of(contents[nid])
